@@ -29,6 +29,42 @@ def calls(ps, name=None):
             (name is None or e.name == name)]
 
 
+def path_clears(ps, fld, base='self'):
+    """the path leaves base->fld empty having released what it held: Py_CLEAR of
+    the field, or - the same spelled by hand - a NULL store to it together with a
+    DECREF/XDECREF of the value it held"""
+    tgt = '%s->%s' % (base, fld)
+    if any(args_of(e) == [tgt] for e in calls(ps, 'Py_CLEAR')):
+        return True
+    nulled = any(e.kind == 'store' and show(e.e) == tgt and e.val is not None and
+                 e.val.k == 'null' for e in ps.events)
+    dropped = any(args_of(e) == [tgt] for e in calls(ps, 'Py_DECREF') + calls(ps, 'Py_XDECREF'))
+    if nulled and dropped:
+        return True
+    # ... or the path found the field empty already (and did not fill it)
+    stored = any(e.kind == 'store' and show(e.e) == tgt and
+                 not (e.val is not None and e.val.k == 'null') for e in ps.events)
+    return ps.facts.get(tgt) is False and not stored
+
+
+_FN_CLEARS = {}
+
+
+def fn_clears(u, name, fld):
+    """every returning path of the accelerator function `name` clears self->fld
+    (helpers it calls are expanded by the path summaries)"""
+    key = (id(u), name, fld)
+    if key not in _FN_CLEARS:
+        try:
+            ss = [ps for ps in S(u, name) if ps.kind in ('return', 'fall')]
+            f = u.func(name)
+            base = f.params[0][0] if f.params else 'self'
+            _FN_CLEARS[key] = bool(ss) and all(path_clears(ps, fld, base) for ps in ss)
+        except Exception:
+            _FN_CLEARS[key] = False
+    return _FN_CLEARS[key]
+
+
 def work(ps):
     """call events without reference counting"""
     return [e for e in ps.events if e.kind == 'call' and e.name not in NOISE]
